@@ -165,12 +165,28 @@ type c16DiffScenario struct {
 	Input []byte `json:"input"`
 }
 
-var c16Frags = []string{"{", "}", ",", "=", "!=", "=~", "!~", "\"", "\\", "\\\"", "\\n", " ", "foo", "bar", "a", "_b1", "0", "世", "\n", "\t", "'", "`", ".*", "\\d", "\xff", "(", ")", "[", "a|b", "🙂", "\\u00e9", "\\x41", ":", "~", "!"}
+var c16Frags = []string{"{", "}", ",", "=", "!=", "=~", "!~", "\"", "\\", "\\\"", "\\n", " ", "foo", "bar", "a", "_b1", "0", "世", "\n", "\t", "'", "`", ".*", "\\d", "\xff", "(", ")", "[", "a|b", "🙂", "\\u00e9", "\\x41", ":", "~", "!",
+	// whitespace the classic grammar's \s does not cover (and some it does): the two parsers trim differently
+	"\u00a0", "\u0085", "\v", "\f", "\r", "\u2028", "\u3000", "\u1680", "\u202f"}
+
+var c16Spaces = []string{" ", "\t", "\n", "\u00a0", "\u0085", "\v", "\f", "\r", "\u2028", "\u2029", "\u3000", "\u1680", "\u2003", "\u202f", "\u205f", "\ufeff", "\u200b"}
 
 func genC16Diff(t *rapid.T) c16DiffScenario {
-	switch rapid.IntRange(0, 3).Draw(t, "kind") {
+	switch rapid.IntRange(0, 4).Draw(t, "kind") {
 	case 0:
 		return c16DiffScenario{Input: rapid.SliceOfN(rapid.Byte(), 0, 24).Draw(t, "bytes")}
+	case 4:
+		// one matcher as a user types it (no braces, value quoted or not), with white space of any kind around it
+		// and around the operator
+		sp := func(l string) string {
+			var sb strings.Builder
+			for i, n := 0, rapid.IntRange(0, 2).Draw(t, l+"N"); i < n; i++ {
+				sb.WriteString(rapid.SampledFrom(c16Spaces).Draw(t, l))
+			}
+			return sb.String()
+		}
+		val := rapid.SampledFrom([]string{"bar", "bar baz", "", "b", "\"bar\"", "\"bar \"", "世", "a|b", ".*"}).Draw(t, "val")
+		return c16DiffScenario{Input: []byte(sp("lead") + rapid.SampledFrom([]string{"foo", "a", "_b1", "世"}).Draw(t, "name") + sp("preOp") + rapid.SampledFrom(gen.Ops).Draw(t, "op") + sp("postOp") + val + sp("trail"))}
 	case 1:
 		// mutate a printed matcher list
 		sc := genC16RT(t)
